@@ -106,6 +106,7 @@ type mInst struct {
 	ref          bool // host holds the api.Module
 	held         int  // api.Function handles the host holds
 	collected    bool // unreachable at some forced GC
+	ghost        bool // instance of a module whose instantiation failed after its element segments were applied: never handed out, but its functions sit in the imported table
 	absent       bool // instantiation certainly (or, over-approximated, possibly) fails in the real world: no root, no edges, no steps
 	pt           []refInfo
 	fg           refInfo
@@ -363,6 +364,23 @@ func GenHistory(seed uint64, compiler, avoidKnown bool) *History {
 		}
 		h.Mods = append(h.Mods, s)
 	}
+	// modules whose instantiation fails AFTER they have written their functions into an imported shared table
+	var owners []int
+	for j, sp := range h.Mods {
+		if sp.ExportTable {
+			owners = append(owners, j)
+		}
+	}
+	for k := 0; k < 2 && len(owners) > 0; k++ {
+		if (k == 0 && r.Chance(1, 2)) || (k == 1 && r.Chance(1, 6)) {
+			fs := ModSpec{K: 1 + len(h.Mods) + 10*r.Intn(9), Implicit: r.Chance(1, 3), ImpFunc: -1, ImpGlobal: -1, ImpMem: -1,
+				ImpTable: owners[r.Intn(len(owners))], Fail: 1, FailIdx: 1 + r.Intn(2)}
+			if r.Chance(1, 3) {
+				fs.Fail = 2
+			}
+			h.Mods = append(h.Mods, fs)
+		}
+	}
 	target := 8 + r.Intn(33)
 	h.Small = target <= 20
 	g := &gen{r: r, h: h, m: newModel(h)}
@@ -429,6 +447,9 @@ func (g *gen) next(i, target int) (Op, bool) {
 			return Op{Kind: "compile", RT: rt, Slot: slot}, true
 		}
 		g.slotsDone[rt]++
+		if spec.Fail > 0 {
+			g.failAgenda(rt, slot, spec)
+		}
 		if j := spec.ImpGlobal; j >= 0 && m.named[rt][j] >= 0 && r.Chance(1, 2) {
 			// the exporter of an imported funcref global: close, drop, collect, then use the global
 			a := m.named[rt][j]
@@ -487,14 +508,19 @@ func (g *gen) next(i, target int) (Op, bool) {
 		rt := r.Intn(g.rts())
 		var slots []int
 		for s, sp := range g.h.Mods {
-			if !sp.Implicit && !m.cacheCl && m.comp[rt][s].exists && !m.comp[rt][s].dropped && m.named[rt][s] >= 0 && len(m.inst) < 8 {
+			again := m.named[rt][s] >= 0 || (sp.Fail > 0 && g.slotsDone[rt] > s) // failing instantiations can be repeated
+			if !sp.Implicit && !m.cacheCl && m.comp[rt][s].exists && !m.comp[rt][s].dropped && again && len(m.inst) < 8 {
 				slots = append(slots, s)
 			}
 		}
 		if len(slots) == 0 {
 			return Op{}, false
 		}
-		return Op{Kind: "inst", RT: rt, Slot: pick(r, slots), Inst: len(m.inst), Name: ""}, true
+		sl := pick(r, slots)
+		if g.h.Mods[sl].Fail > 0 {
+			g.failAgenda(rt, sl, g.h.Mods[sl])
+		}
+		return Op{Kind: "inst", RT: rt, Slot: sl, Inst: len(m.inst), Name: ""}, true
 	default: // hold / call a held api.Function
 		if len(m.heldList) > 0 && r.Bool() {
 			k := r.Intn(len(m.heldList))
@@ -506,6 +532,46 @@ func (g *gen) next(i, target int) (Op, bool) {
 		}
 		return Op{Kind: "hold", Inst: pick(r, ids), Name: []string{"f0", "pt_call"}[r.Intn(2)], N: len(m.heldList), Args: nil}, true
 	}
+}
+
+// failAgenda: after a failing instantiation wrote into the shared table:
+// close/drop its compiled module, collect, churn, then a live member of the
+// table's group calls through the written slots.
+func (g *gen) failAgenda(rt, slot int, spec ModSpec) {
+	r, m := g.r, g.m
+	var ag []Op
+	if !spec.Implicit {
+		if r.Chance(2, 3) {
+			ag = append(ag, Op{Kind: "closecomp", RT: rt, Slot: slot})
+		}
+		if r.Chance(2, 3) {
+			ag = append(ag, Op{Kind: "dropcomp", RT: rt, Slot: slot})
+		}
+	}
+	ag = append(ag, Op{Kind: "gc"})
+	if r.Chance(1, 2) {
+		ag = append(ag, Op{Kind: "churn", N: 100 + r.Intn(400)}, Op{Kind: "gc"})
+	}
+	owner := m.named[rt][spec.ImpTable]
+	if owner < 0 {
+		return
+	}
+	var users []int
+	for _, in := range m.inst {
+		if !in.ghost && !in.absent && in.ref && m.tableOwner(in.id) == owner {
+			users = append(users, in.id)
+		}
+	}
+	for k := 0; k < 2 && len(users) > 0; k++ {
+		u := pick(r, users)
+		idx := spec.FailIdx + r.Intn(2)
+		if r.Chance(1, 4) {
+			ag = append(ag, Op{Kind: "lookup", Inst: u, N: 0, Idx: idx})
+		} else {
+			ag = append(ag, Op{Kind: "call", Inst: u, Name: "st_call", Args: []uint64{uint64(idx)}})
+		}
+	}
+	g.agenda = append(g.agenda, ag...)
 }
 
 // valid: can the (agenda) op still be executed by the host?
@@ -920,6 +986,9 @@ func (g *gen) annotateAndApply(m *model, op *Op) {
 	case "inst":
 		in := &mInst{id: op.Inst, rt: op.RT, slot: op.Slot, named: op.Name != "", ref: true}
 		s := g.h.Mods[op.Slot]
+		if s.Fail > 0 { // never handed out, never in the store's list; reachable only through the table it wrote into
+			in.ghost, in.named, in.ref, in.closed = true, false, false, true
+		}
 		in.pt = make([]refInfo, ptMin)
 		for i := range in.pt {
 			in.pt[i] = refInfo{prod: -1}
@@ -937,7 +1006,7 @@ func (g *gen) annotateAndApply(m *model, op *Op) {
 			in.st[0] = refInfo{prod: op.Inst, which: 1, channel: "own"}
 		}
 		// will the real-world instantiation fail? (over-approximated: "absent" is the conservative direction)
-		if m.rtClosed[op.RT] || m.rtDropped[op.RT] || m.cacheCl || m.hostClosed[op.RT] {
+		if m.rtClosed[op.RT] || m.rtDropped[op.RT] || m.cacheCl || (m.hostClosed[op.RT] && s.Fail != 1) {
 			in.absent = true
 		}
 		if !s.Implicit {
@@ -960,6 +1029,14 @@ func (g *gen) annotateAndApply(m *model, op *Op) {
 		m.inst = append(m.inst, in)
 		if in.named {
 			m.named[op.RT][op.Slot] = op.Inst
+		}
+		if in.ghost && !in.absent { // element segment applied before the start function failed: the writes persist
+			if owner := m.named[op.RT][s.ImpTable]; owner >= 0 {
+				for k := 0; k < 2; k++ {
+					m.setSlot(owner, "st", s.FailIdx+k, refInfo{prod: op.Inst, which: 5 + k, channel: "failed-instantiation"})
+				}
+			}
+			op.UAC = append(op.UAC, "failed-instantiation-wrote-shared-table")
 		}
 		op.Mutates = true
 	case "passref":
@@ -1205,6 +1282,24 @@ func ManualHistory(channel string, compiler bool) *History {
 		pass = Op{Kind: "passref", From: 0, Inst: 1, Which: 3, Channel: "pt_set", Idx: 2}
 		use = Op{Kind: "call", Inst: 1, Name: "pt_call2", Args: []uint64{2, 5, 0},
 			Sub: []Op{{Kind: "closemod", Inst: 0}, {Kind: "closecomp", RT: 0, Slot: 0}, {Kind: "drop", Inst: 0}, {Kind: "dropcomp", RT: 0, Slot: 0}, {Kind: "gc"}}}
+	case "failed-instantiation", "failed-instantiation-exit":
+		// A owns and exports the table; F imports it, writes [ff0 ff1] at 2 through its active element segment, then its start function fails
+		a.ExportTable = true
+		f := ModSpec{K: 2, ImpFunc: -1, ImpTable: 0, ImpGlobal: -1, ImpMem: -1, Fail: 1, FailIdx: 2}
+		if channel == "failed-instantiation-exit" {
+			f.Fail = 2
+		}
+		h.Mods = []ModSpec{a, f}
+		use := Op{Kind: "call", Inst: 0, Name: "st_call", Args: []uint64{2}}
+		use2 := Op{Kind: "lookup", Inst: 0, N: 0, Idx: 3}
+		g := &gen{h: h, m: newModel(h)}
+		for _, op := range []Op{{Kind: "compile", Slot: 0}, {Kind: "inst", Slot: 0, Inst: 0, Name: "m0"}, {Kind: "compile", Slot: 1},
+			{Kind: "inst", Slot: 1, Inst: 1, Name: "m1"}, use, use2, {Kind: "closecomp", Slot: 1}, {Kind: "dropcomp", Slot: 1},
+			{Kind: "gc"}, {Kind: "churn", N: 300}, {Kind: "gc"}, use, use2} {
+			g.emit(op)
+		}
+		h.NInst = len(g.m.inst)
+		return h
 	default:
 		return nil
 	}
